@@ -71,15 +71,17 @@ CONTAINERS = [
          fns={"try_from_notation": "Fen.try_from_notation"}, complete=True, mod="fen"),
     # ---- target 3: move queries and the SAN scanner
     dict(file=MOVES, path=[H("impl MoveQuery")], self="MoveQuery",
-         fns={n: "MoveQuery." + n for n in ["new", "by_moving_from_to", "by_castling", "set_origin", "set_origin_rank",
+         fns={n: "MoveQuery." + n for n in ["new", "set_origin", "set_origin_rank",
                                              "set_origin_file", "set_destination", "set_destination_rank",
                                              "set_destination_file", "set_promotion", "set_castle", "set_piece",
-                                             "set_is_capture", "test"]}, complete=True),
+                                             "set_is_capture", "by_moving_from_to", "by_castling", "test"]}, complete=True),
     dict(file=NOTATION, path=[H("mod san"), H("impl TryFromNotation<MoveQuery> for San")], self="San",
          fns={"try_from_notation": "San.try_from_notation"}, complete=True, mod="san"),
     # ---- target 4: coordinate notation (writer)
     dict(file=NOTATION, path=[H("pub mod lan"), H("impl IntoNotation<Move> for Lan")], self="Lan",
          fns={"into_notation": "Lan.into_notation"}, complete=True, mod="lan"),
+    dict(file=NOTATION, path=[H("pub mod lan"), H("impl IntoNotation<&[Move]> for Lan")], self="Lan",
+         fns={"into_notation": "Lan.into_notation_slice"}, complete=True, mod="lan"),
 ]
 
 # every `fn` of notation.rs must be translated or named here (a new fn is a broken tie)
@@ -90,7 +92,6 @@ NOTATION_SKIP = {
     "try_from_notation@top": "generic wrapper `F::try_from_notation(s).map_err(|_| ())`",
     "into_notation@top": "generic wrapper building `Notation { Cow::Borrowed(value) }`",
     "into_notation@peg": "PEG writer (book tooling; not a property target)",
-    "into_notation@lan2": "`IntoNotation<&[Move]> for Lan` (enumerate + `len() - 1`): not translated",
     "test_default_fen": "test", "test_round_trip": "test",
 }
 
@@ -101,6 +102,8 @@ TEXT_CHECKS = [
     (NOTATION, r"impl<T, F> Display for Notation<'_, T, F>\s*where\s*T: Sized \+ Clone,\s*F: IntoNotation<T>,\s*\{\s*fn fmt\(&self, f: &mut std::fmt::Formatter<'_>\) -> std::fmt::Result \{\s*F::into_notation\(self, f\)\s*\}\s*\}",
      "Display for Notation forwards to F::into_notation"),
     (NOTATION, r"fn try_from_notation\(notation: &str\) -> Result<Value, Self::Error>;", "trait TryFromNotation"),
+    (NOTATION, r"pub fn into_notation<T, F>\(value: &T\) -> Notation<'_, T, F>\s*where\s*T: Sized \+ Clone,\s*F: IntoNotation<T>,\s*\{\s*Notation \{\s*value: Cow::Borrowed\(value\),\s*_marker: PhantomData,\s*\}\s*\}",
+     "free fn into_notation wraps the borrowed value in a Notation (whose Display forwards to F::into_notation)"),
     (NOTATION, r"fn into_notation\(value: &Value, f: &mut std::fmt::Formatter<'_>\) -> std::fmt::Result;", "trait IntoNotation"),
     (STATE, r"pub struct Clock \{\s*pub halfmove_clock: usize,\s*pub fullmove_number: usize,\s*\}", "struct Clock"),
     (STATE, r"pub struct CastleRights \{\s*pub kingside: bool,\s*pub queenside: bool,\s*\}", "struct CastleRights"),
@@ -637,3 +640,1660 @@ class BodyParser(TyParser):
                 return ("struct", segs[0], fields, ln)
             return ("path", segs, gens, ln)
         self.err(f"expression starting with `{p}` not supported")
+
+
+# ----------------------------------------------------------------------------------------------------------------------
+# registry of callable items
+# ----------------------------------------------------------------------------------------------------------------------
+def scan_items_tolerant(toks, lo, hi, fname):
+    """like rs2lean.scan_items, but a generic `fn f<..>(..)` is recorded with `generic = True` instead of failing"""
+    fns, consts = [], []
+    attrs = []
+    i = lo
+    while i < hi:
+        t = toks[i]
+        if t.s == "#" and i + 1 < hi and toks[i + 1].s == "[":
+            c = match_close(toks, i + 1, "[", "]")
+            attrs.append(" ".join(x.s for x in toks[i + 2:c]))
+            i = c + 1
+            continue
+        if t.s == "fn":
+            name = toks[i + 1].s
+            p = i + 2
+            generic = toks[p].s == "<"
+            while toks[p].s != "(":
+                p += 1
+            pc = match_close(toks, p, "(", ")")
+            j = pc + 1
+            while toks[j].s not in ("{", ";"):
+                j += 1
+            if toks[j].s == ";":
+                i = j + 1
+                attrs = []
+                continue
+            bc = match_close(toks, j, "{", "}")
+            raw = R.RawFn(name, attrs, toks[p:j], toks[j:bc + 1], t.line, (j, bc))
+            raw.generic = generic
+            fns.append(raw)
+            attrs = []
+            i = bc + 1
+            continue
+        if t.s == "const" and toks[i + 1].k == "id" and toks[i + 2].s == ":":
+            j = i
+            while toks[j].s != ";":
+                if toks[j].s in ("{", "(", "["):
+                    j = match_close(toks, j, toks[j].s, {"{": "}", "(": ")", "[": "]"}[toks[j].s])
+                j += 1
+            consts.append((toks[i + 1].s, toks[i + 3:j], t.line, attrs))
+            attrs = []
+            i = j + 1
+            continue
+        if t.s == "{":
+            i = match_close(toks, i, "{", "}") + 1
+            attrs = []
+            continue
+        if t.s == ";":
+            attrs = []
+        i += 1
+    return fns, consts
+
+
+class Entry:
+    def __init__(self, lean, params, ret, kind, mutparam=None, has_self=False, seam=False, rust=""):
+        self.lean, self.params, self.ret, self.kind = lean, params, ret, kind
+        self.mutparam, self.has_self, self.seam, self.rust = mutparam, has_self, seam, rust
+
+
+def lean_ty(t, atom=False):
+    h = t[0]
+    if h == "?":
+        fail("internal: unresolved type in a signature")
+    if h in INT_LEAN:
+        return INT_LEAN[h]
+    simple = {"bool": "Bool", "char": "Char", "unit": "Unit", "regex": "(List Char)", "str": "(List Char)", "fmt": "(List Char)",
+              "fmtresult": "Unit", "captures": "RegexGroups"}
+    if h in simple:
+        return simple[h]
+    if h in ("Option", "slice", "iter", "ArrayMap"):
+        inner = lean_ty(t[-1], True)
+        s = {"Option": "Option", "slice": "List", "iter": "List", "ArrayMap": "Array"}[h] + " " + inner
+        return f"({s})" if atom else s
+    if h == "Result":
+        return lean_ty(t[1], atom)
+    if h == "tuple":
+        return "(" + " × ".join(lean_ty(x, True) for x in t[1:]) + ")"
+    return h
+
+
+def char_lit(c):
+    o = ord(c)
+    if c in "'\\" or o < 32 or o > 126:
+        return f"(Char.ofNat {o})"
+    return f"'{c}'"
+
+
+def chars_lit(s):
+    return "[" + ", ".join(char_lit(c) for c in s) + "]"
+
+
+def P(s):
+    s = s.strip()
+    if re.fullmatch(r"[\w.'«»]+", s) or (s[0] in "([" and R.Translator.balanced(s)) or re.fullmatch(r"'.'", s):
+        return s
+    return f"({s})"
+
+
+class Mode:
+    def __init__(self, kind, vars=(), ty=None):
+        self.kind, self.vars, self.ty = kind, list(vars), ty
+
+
+def tup(vs):
+    if not vs:
+        return "()"
+    return vs[0] if len(vs) == 1 else "(" + ", ".join(vs) + ")"
+
+
+def proj(base, i, n):
+    """i-th component of a right-nested n-tuple"""
+    if n == 1:
+        return base
+    s = base + ".2" * i
+    return s + (".1" if i < n - 1 else "")
+
+
+class Text:
+    def __init__(self, repo):
+        self.repo = repo
+        self.t1 = R.Translator(repo)
+        self.t1.run()
+        R2.install()
+        self.e3 = R3.Emitter3(repo, self.t1)
+        self.e3.run3()
+        self.src, self.toks = {}, {}
+        self.reg = {}            # (type head | None, name) -> [Entry]
+        self.consts = {}         # (owner, name) -> (lean, ty)
+        self.structs = {}        # name -> [(field, ty)]
+        self.holes = {}
+        self.nhole = 0
+        self.ntmp = 0
+        self.notes = []
+        self.items = []          # (kind, text)
+        self.mut_names = {"next"}
+        self.import_stages()
+
+    # ---- stages 1-3 as vocabulary
+    def import_stages(self):
+        seen = set()
+        for fn in list(self.t1.fns) + list(self.e3.fns):
+            if fn.lean in seen:
+                continue
+            seen.add(fn.lean)
+            try:
+                params = [(p[0], parse_ty_str(R3.show_ty3(p[1]))) for p in fn.params]
+                ret = parse_ty_str(R3.show_ty3(fn.out_ty())) if R3.show_ty3(fn.out_ty()) != "unit" else ("unit",)
+            except TieBroken:
+                continue
+            if fn.name in ("try_from", "try_from_primitive") and ret[0] == "Option":
+                ret = ("Result", ret[1])
+            has_self = bool(params) and params[0][0] == "self"
+            mp = None
+            if getattr(fn, "mutparam", None):
+                mp = [i for i, p in enumerate(params) if p[0] == fn.mutparam][0]
+                if has_self and mp == 0:
+                    self.mut_names.add(fn.name)
+            head = fn.self_ty if isinstance(fn.self_ty, str) else None
+            if head is not None:
+                head = parse_ty_str(head)[0] if re.fullmatch(r"\w+", head) else None
+                if head is None:
+                    continue
+            e = Entry(fn.lean, params, ret, "panics" if fn.may_panic else "pure", mp, has_self, rust=fn.rust_path)
+            self.reg.setdefault((head, fn.name), []).append(e)
+        for (owner, name), c in self.e3.consts.items():
+            try:
+                ty = parse_ty_str(R3.show_ty3(c.ty))
+            except TieBroken:
+                continue
+            self.consts[(owner, name)] = (c.lean, ty)
+        for rel, name, fields, derives in self.e3.structs:
+            try:
+                self.structs[name] = [(f, parse_ty_str(t if isinstance(t, str) else R3.show_ty3(t))) for f, t in fields]
+            except TieBroken:
+                pass
+
+    def load(self, rel):
+        if rel not in self.src:
+            path = os.path.join(self.repo, rel)
+            if not os.path.exists(path):
+                fail(f"{rel}: file not found")
+            with open(path) as f:
+                self.src[rel] = f.read()
+            self.toks[rel] = lex(self.src[rel], rel)
+        return self.toks[rel]
+
+    # ---- holes
+    def hole(self):
+        self.nhole += 1
+        return ("?", self.nhole)
+
+    def prune(self, t):
+        if t[0] == "?":
+            b = self.holes.get(t[1])
+            return self.prune(b) if b is not None else t
+        return (t[0],) + tuple(self.prune(x) for x in t[1:])
+
+    def unify(self, a, b):
+        a, b = self.prune(a), self.prune(b)
+        if a == b:
+            return True
+        if a[0] == "?":
+            self.holes[a[1]] = b
+            return True
+        if b[0] == "?":
+            self.holes[b[1]] = a
+            return True
+        if a[0] != b[0] or len(a) != len(b):
+            return False
+        return all(self.unify(x, y) for x, y in zip(a[1:], b[1:]))
+
+    def fresh(self, env):
+        while True:
+            self.ntmp += 1
+            n = f"t_{self.ntmp}"
+            if n not in env:
+                return n
+
+    def err(self, line, msg):
+        fail(f"{self.cur_file}:{line}: fn {self.cur_fn}: {msg}")
+
+    # ------------------------------------------------------------------------------------------------------------------
+    # assigned-variable analysis (over-approximation is harmless: the variable is merely threaded through)
+    # ------------------------------------------------------------------------------------------------------------------
+    def root(self, e):
+        while e[0] in ("field", "index"):
+            e = e[1]
+        if e[0] == "path" and len(e[1]) == 1:
+            return e[1][0]
+        return None
+
+    def pat_names(self, p, acc):
+        if p[0] == "pbind":
+            acc.add(p[1])
+        elif p[0] in ("ptuple", "por"):
+            for q in p[1]:
+                self.pat_names(q, acc)
+        elif p[0] == "pctor":
+            for q in p[2]:
+                self.pat_names(q, acc)
+
+    def assigned(self, e, local, acc):
+        """names of variables NOT in `local` that `e` assigns, in order of first occurrence"""
+        def add(n):
+            if n is not None and n not in local and n not in acc:
+                acc.append(n)
+        k = e[0]
+        if k == "block":
+            loc = set(local)
+            for st in e[1]:
+                if st[0] == "let":
+                    self.assigned(st[3], loc, acc)
+                    names = set()
+                    self.pat_names(st[1], names)
+                    for n in names:
+                        if n in acc and n not in loc:
+                            fail(f"{self.cur_file}:{st[4]}: `{n}` is assigned and then re-declared in the same block")
+                    loc |= names
+                else:
+                    self.assigned(st[1], loc, acc)
+            if e[2] is not None:
+                self.assigned(e[2], loc, acc)
+        elif k == "assign":
+            self.assigned(e[3], local, acc)
+            add(self.root(e[2]))
+        elif k == "write":
+            add(self.root(e[1]))
+            for a in e[3]:
+                self.assigned(a, local, acc)
+        elif k == "mcall":
+            self.assigned(e[1], local, acc)
+            for a in e[3]:
+                self.assigned(a, local, acc)
+            if e[2] in self.mut_names:
+                add(self.root(e[1]))
+        elif k == "for":
+            loc = set(local)
+            self.pat_names(e[1], loc)
+            self.assigned(e[2], local, acc)
+            self.assigned(e[3], loc, acc)
+        elif k == "if":
+            self.assigned(e[1], local, acc)
+            self.assigned(e[2], local, acc)
+            if e[3] is not None:
+                self.assigned(e[3], local, acc)
+        elif k == "iflet":
+            loc = set(local)
+            self.pat_names(e[1], loc)
+            self.assigned(e[2], local, acc)
+            self.assigned(e[3], loc, acc)
+            if e[4] is not None:
+                self.assigned(e[4], local, acc)
+        elif k == "match":
+            self.assigned(e[1], local, acc)
+            for pat, body in e[2]:
+                loc = set(local)
+                self.pat_names(pat, loc)
+                self.assigned(body, loc, acc)
+        elif k == "closure":
+            inner = []
+            self.assigned(e[2], set(), inner)
+            if inner:
+                fail(f"{self.cur_file}:{e[3]}: a closure that assigns variables is not supported")
+        elif k in ("call",):
+            self.assigned(e[1], local, acc)
+            for a in e[2]:
+                self.assigned(a, local, acc)
+        elif k in ("field", "try", "cast", "return", "debug_assert"):
+            if e[1] is not None:
+                self.assigned(e[1], local, acc)
+        elif k == "index":
+            self.assigned(e[1], local, acc)
+            self.assigned(e[2], local, acc)
+        elif k == "unary":
+            self.assigned(e[2], local, acc)
+        elif k == "binary":
+            self.assigned(e[2], local, acc)
+            self.assigned(e[3], local, acc)
+        elif k == "tuple":
+            for a in e[1]:
+                self.assigned(a, local, acc)
+        elif k == "struct":
+            for _, a in e[2]:
+                self.assigned(a, local, acc)
+        return acc
+
+    # ------------------------------------------------------------------------------------------------------------------
+    # expressions: `ex` appends the bindings an expression needs to `out` (A-normal form, Rust's evaluation order) and
+    # returns (atom, type).  An atom of type Result<T> is an UNBOUND `TRes T` computation (consumed by `?` or as a tail).
+    # ------------------------------------------------------------------------------------------------------------------
+    def unify_probe(self, a, b):
+        saved = dict(self.holes)
+        ok = self.unify(a, b)
+        self.holes = saved
+        return ok
+
+    def bind(self, env, out, ind, rhs, pure=False):
+        n = self.fresh(env)
+        out.append(f"{ind}let {n} {':=' if pure else '←'} {rhs}")
+        return n
+
+    def ty_of_name(self, name, line):
+        if name == "Self":
+            if self.self_ty is None:
+                self.err(line, "`Self` outside an impl")
+            return self.self_ty
+        return (name,)
+
+    def lookup(self, head, name, argtys, exp, line, what):
+        cands = self.reg.get((head, name), [])
+        ok = []
+        for c in cands:
+            ps = c.params[1:] if c.has_self else c.params
+            if len(ps) != len(argtys):
+                continue
+            saved = dict(self.holes)
+            good = all(self.unify(p[1], a) for p, a in zip(ps, argtys))
+            if good and name in ("into", "from", "try_from") and exp is not None and len(cands) > 1:
+                r = c.ret[1] if (c.ret[0] == "Result" and exp[0] != "Result") else c.ret
+                good = self.unify(r, exp)
+            self.holes = saved
+            if good:
+                ok.append(c)
+        if len(ok) != 1:
+            self.err(line, f"{what}: {len(ok)} translated candidates for `{head}::{name}({', '.join(show(self.prune(a)) for a in argtys)})`")
+        c = ok[0]
+        ps = c.params[1:] if c.has_self else c.params
+        for p, a in zip(ps, argtys):
+            self.unify(p[1], a)
+        return c
+
+    def apply(self, c, atoms, env, out, ind):
+        """call entry `c` on atoms (self first); returns (atom, type)"""
+        pre = ["rx"] if c.seam else []
+        term = " ".join([c.lean] + pre + [P(a) for a in atoms])
+        if c.kind == "pure":
+            if c.ret[0] == "Result":
+                return f"(TRes.okOr {P(term)})", c.ret
+            return f"({term})" if atoms else term, c.ret
+        if c.kind == "panics":
+            if c.ret[0] == "Result":
+                fail(f"call of `{c.lean}` (a panicking stage-1..3 function returning Result) not supported")
+            return self.bind(env, out, ind, f"TRes.ofPanics ({term})"), c.ret
+        if c.ret[0] == "Result":
+            return f"({term})", c.ret
+        return self.bind(env, out, ind, term), c.ret
+
+    def int_lit(self, text, exp, line):
+        m = re.fullmatch(r"(0x[0-9a-fA-F_]+|0b[01_]+|\d[\d_]*)(u8|u16|u32|u64|usize|i8|i16|i32|i64|isize)?", text)
+        v = int(m.group(1).replace("_", ""), 0)
+        if m.group(2):
+            ty = (m.group(2),)
+        else:
+            ty = self.prune(exp) if exp is not None else None
+            if ty is None or ty[0] not in INT_LEAN:
+                self.err(line, f"integer literal `{text}` of undetermined type")
+        if ty[0] not in INT_LEAN:
+            self.err(line, f"integer type {ty[0]} not supported")
+        return f"({v} : {INT_LEAN[ty[0]]})", ty
+
+    def ex(self, e, env, out, ind, exp=None):
+        k = e[0]
+        if k == "int":
+            return self.int_lit(e[1], exp, 0)
+        if k == "char":
+            return char_lit(e[1]), ("char",)
+        if k == "str":
+            return chars_lit(e[1]), ("str",)
+        if k == "unit":
+            return "()", ("unit",)
+        if k == "path":
+            return self.ex_path(e, env, out, ind, exp)
+        if k == "tuple":
+            exps = list(self.prune(exp)[1:]) if exp is not None and self.prune(exp)[0] == "tuple" else [None] * len(e[1])
+            parts = [self.ex(a, env, out, ind, x) for a, x in zip(e[1], exps)]
+            return "(" + ", ".join(p[0] for p in parts) + ")", ("tuple",) + tuple(p[1] for p in parts)
+        if k == "field":
+            return self.ex_field(e, env, out, ind)
+        if k == "index":
+            return self.ex_index(e, env, out, ind)
+        if k == "unary":
+            if e[1] == "!":
+                a, t = self.ex(e[2], env, out, ind, ("bool",))
+                if self.prune(t) != ("bool",):
+                    self.err(0, "`!` on a non-bool")
+                return f"(!{P(a)})", ("bool",)
+            self.err(0, f"unary `{e[1]}` not supported")
+        if k == "binary":
+            return self.ex_binary(e, env, out, ind, exp)
+        if k == "cast":
+            return self.ex_cast(e, env, out, ind)
+        if k == "try":
+            a, t = self.ex(e[1], env, out, ind, ("Result", exp) if exp is not None else None)
+            t = self.prune(t)
+            if t[0] == "fmtresult":
+                return "()", ("unit",)
+            if t[0] != "Result":
+                self.err(0, f"`?` on a value of type {show(t)} (only Result<_, ()>; use .ok_or(()) on an Option)")
+            return self.bind(env, out, ind, a), t[1]
+        if k == "call":
+            return self.ex_call(e, env, out, ind, exp)
+        if k == "mcall":
+            return self.ex_mcall(e, env, out, ind, exp)
+        if k == "struct":
+            name = e[1]
+            ty = self.ty_of_name(name, e[3])
+            fields = self.structs.get(ty[0])
+            if fields is None:
+                self.err(e[3], f"struct `{ty[0]}` unknown")
+            if [f for f, _ in fields] != [f for f, _ in e[2]]:
+                if sorted(f for f, _ in fields) != sorted(f for f, _ in e[2]):
+                    self.err(e[3], f"struct literal `{ty[0]}`: fields differ from the declaration")
+            parts = []
+            fd = dict(fields)
+            for f, a in e[2]:                       # Rust evaluates the field initialisers in the order written
+                at, tt = self.ex(a, env, out, ind, fd[f])
+                if not self.unify(tt, fd[f]):
+                    self.err(e[3], f"field `{f}`: expected {show(fd[f])}, found {show(self.prune(tt))}")
+                parts.append(f"f_{f} := {at}")
+            return "({ " + ", ".join(parts) + " } : " + lean_ty(ty) + ")", ty
+        if k in ("if", "iflet", "match", "block"):
+            h = self.hole()
+            if exp is not None:
+                self.unify(h, exp)
+            sub = []
+            self.ctrl(e, dict(env), sub, ind + "    ", Mode("value", ty=h))
+            n = self.fresh(env)
+            out.append(f"{ind}let {n} ← (do")
+            out.extend(sub)
+            out[-1] += ")"
+            return n, h
+        if k in ("return", "break"):
+            self.err(0, f"`{k}` in this position not supported")
+        self.err(0, f"expression `{k}` not supported here")
+
+    def ex_path(self, e, env, out, ind, exp):
+        segs, gens, line = e[1], e[2], e[3]
+        if len(segs) == 1:
+            n = segs[0]
+            if n in env:
+                return mangle(n), env[n]
+            if n == "None":
+                return "Option.none", ("Option", self.hole())
+            if n in ("true", "false"):
+                return n, ("bool",)
+            if (self.cur_mod, n) in self.consts:
+                c = self.consts[(self.cur_mod, n)]
+                return c[0], c[1]
+            self.err(line, f"unknown identifier `{n}`")
+        if len(segs) == 2:
+            o, n = segs
+            if o == "Self":
+                o = self.self_ty[0]
+            if o in ENUMS and n in ENUMS[o]:
+                return ENUMS[o][n], (o,)
+            if (o, n) in self.consts:
+                c = self.consts[(o, n)]
+                return c[0], c[1]
+        self.err(line, f"path `{'::'.join(segs)}` not supported")
+
+    def ex_field(self, e, env, out, ind):
+        a, t = self.ex(e[1], env, out, ind)
+        t = self.prune(t)
+        f = e[2]
+        if f.isdigit():
+            if t[0] in NEWTYPES and f == "0":
+                inner = NEWTYPES[t[0]]
+                inner = R.ALIASES.get(inner, inner)
+                return a, (inner,)
+            if t[0] == "tuple" and int(f) < len(t) - 1:
+                return f"{P(a)}{proj('', int(f), len(t) - 1)}", t[1 + int(f)]
+            self.err(0, f"`.{f}` on {show(t)}")
+        fields = self.structs.get(t[0])
+        if fields is None or f not in dict(fields):
+            self.err(0, f"field `.{f}` of {show(t)} unknown")
+        return f"{P(a)}.f_{f}", dict(fields)[f]
+
+    def index_key(self, kt, katom):
+        c = [x for x in self.reg.get(("Index", "from"), []) if self.prune(x.params[0][1]) == self.prune(kt)]
+        if len(c) != 1:
+            fail(f"{self.cur_file}: fn {self.cur_fn}: no translated `impl From<{show(self.prune(kt))}> for Index`")
+        return f"({c[0].lean} {P(katom)})"
+
+    def ex_index(self, e, env, out, ind):
+        a, t = self.ex(e[1], env, out, ind)
+        t = self.prune(t)
+        if t[0] == "captures":
+            if e[2][0] != "int":
+                self.err(e[3], "capture group index must be a literal")
+            n = int(e[2][1])
+            return self.bind(env, out, ind, f"TRes.ofPanics (Captures.index {P(a)} {n})"), ("str",)
+        if t[0] == "ArrayMap":
+            i, it = self.ex(e[2], env, out, ind, t[1])
+            if not self.unify(it, t[1]):
+                self.err(e[3], f"ArrayMap key: expected {show(t[1])}, found {show(self.prune(it))}")
+            return self.bind(env, out, ind, f"TRes.ofPanics (ArrayMap.index {P(a)} {self.index_key(t[1], i)})"), t[2]
+        if t[0] == "slice":
+            i, it = self.ex(e[2], env, out, ind, ("usize",))
+            if self.prune(it) != ("usize",):
+                self.err(e[3], "slice index must be usize")
+            return self.bind(env, out, ind, f"TRes.ofPanics (slice.index {P(a)} {P(i)})"), t[1]
+        self.err(e[3], f"indexing a {show(t)} not supported")
+
+    def ex_binary(self, e, env, out, ind, exp):
+        op, l, r = e[1], e[2], e[3]
+        if op in ("&&", "||"):
+            a, ta = self.ex(l, env, out, ind, ("bool",))
+            sub = []
+            b, tb = self.ex(r, env, sub, ind + "    ", ("bool",))
+            if self.prune(ta) != ("bool",) or self.prune(tb) != ("bool",):
+                self.err(0, f"`{op}` on non-bools")
+            if not sub:
+                return f"({P(a)} {op} {P(b)})", ("bool",)
+            n = self.fresh(env)
+            other = "pure false" if op == "&&" else "pure true"
+            out.append(f"{ind}let {n} ← (if {a if op == '&&' else '!' + P(a)} then (do")
+            out.extend(sub)
+            out.append(f"{ind}    pure {b})")
+            out.append(f"{ind}  else {other})")
+            return n, ("bool",)
+        if l[0] == "int" and r[0] != "int":
+            b, tb = self.ex(r, env, out, ind)          # a literal has no effects: order is immaterial
+            a, ta = self.ex(l, env, out, ind, tb)
+        else:
+            a, ta = self.ex(l, env, out, ind, exp if op in ("+", "-", "*") else None)
+            b, tb = self.ex(r, env, out, ind, ta)
+        if not self.unify(ta, tb):
+            self.err(0, f"`{op}`: operands of types {show(self.prune(ta))} and {show(self.prune(tb))}")
+        t = self.prune(ta)
+        if op in ("==", "!="):
+            return f"({P(a)} {op} {P(b)})", ("bool",)
+        if op in ("<", ">", "<=", ">="):
+            if t[0] not in INT_LEAN and t[0] != "char":
+                self.err(0, f"`{op}` on {show(t)} not supported")
+            lop = {"<": "<", ">": ">", "<=": "≤", ">=": "≥"}[op]
+            return f"(decide ({a} {lop} {b}))", ("bool",)
+        if op in ("+", "-", "*"):
+            if t[0] not in INT_LEAN:
+                self.err(0, f"`{op}` on {show(t)} not supported")
+            fn = {"+": "checked_add", "-": "checked_sub", "*": "checked_mul"}[op]
+            return self.bind(env, out, ind, f"TRes.ofPanics ({INT_LEAN[t[0]]}.{fn} {P(a)} {P(b)})"), t
+        self.err(0, f"operator `{op}` not supported")
+
+    def ex_cast(self, e, env, out, ind):
+        a, t = self.ex(e[1], env, out, ind)
+        t, d = self.prune(t), e[2]
+        table = {("char", "u8"): "char.as_u8", ("u8", "char"): "u8.as_char", ("u32", "u8"): "UInt32.toUInt8",
+                 ("u8", "usize"): "UInt8.toUInt64", ("usize", "u8"): "UInt64.toUInt8", ("u8", "u32"): "UInt8.toUInt32"}
+        if (t[0], d[0]) in table:
+            return f"({table[(t[0], d[0])]} {P(a)})", d
+        if t[0] in ("Piece", "Color") and d[0] == "usize":
+            return f"(UInt8.toUInt64 ({t[0]}.into_u8 {P(a)}))", d
+        if t == d:
+            return a, d
+        self.err(0, f"cast {show(t)} as {show(d)} not supported")
+
+    def closure(self, e, env, argtys, ind, exp=None):
+        """monadic lambda `fun x => (do …)`; returns (term, result type)"""
+        if e[0] != "closure":
+            self.err(0, "expected a closure literal")
+        if len(e[1]) != len(argtys):
+            self.err(e[3], "closure arity")
+        env2 = dict(env)
+        names = []
+        for p, t in zip(e[1], argtys):
+            if p[0] == "pbind":
+                env2[p[1]] = t
+                names.append(mangle(p[1]))
+            elif p[0] == "pwild":
+                names.append("_")
+            else:
+                self.err(e[3], "closure parameter pattern not supported")
+        h = self.hole()
+        if exp is not None:
+            self.unify(h, exp)
+        body = e[2] if e[2][0] == "block" else ("block", [], e[2])
+        sub = self.do_block(body, env2, ind + "    ", Mode("value", ty=h))
+        return "(fun " + " ".join(names) + " => (do\n" + "\n".join(sub) + "))", h
+
+    def ex_call(self, e, env, out, ind, exp):
+        callee, args, line = e[1], e[2], e[3]
+        if callee[0] != "path":
+            self.err(line, "call of a computed callee not supported")
+        segs, gens = callee[1], callee[2]
+        if len(segs) == 1:
+            n = segs[0]
+            if n == "Some" and len(args) == 1:
+                ex1 = self.prune(exp)[1] if exp is not None and self.prune(exp)[0] == "Option" else None
+                a, t = self.ex(args[0], env, out, ind, ex1)
+                return f"(Option.some {P(a)})", ("Option", t)
+            if n in ("Ok", "Err"):
+                self.err(line, f"`{n}(..)` only as the result of a function / branch or after `return`")
+            if n == "into_notation" and len(args) == 1 and 0 in gens and len(gens[0]) == 2:
+                # `into_notation::<_, F>(&x)`: a `Notation<T, F>` borrowing x; only its Display (= F::into_notation) is used
+                a, t = self.ex(args[0], env, out, ind)
+                fty = self.prune(gens[0][1])
+                if len(fty) != 1 or not self.reg.get((fty[0], "into_notation")):
+                    self.err(line, f"into_notation::<_, {show(fty)}>: no translated `impl IntoNotation for {show(fty)}`")
+                if gens[0][0][0] != "?" and not self.unify(gens[0][0], t):
+                    self.err(line, "into_notation::<T, F>: T is not the type of the argument")
+                return a, ("notation", fty, t)
+            ty = self.ty_of_name(n, line)
+            if ty[0] in NEWTYPES and len(args) == 1:
+                inner = R.ALIASES.get(NEWTYPES[ty[0]], NEWTYPES[ty[0]])
+                a, t = self.ex(args[0], env, out, ind, (inner,))
+                if self.prune(t) != (inner,):
+                    self.err(line, f"`{ty[0]}(..)` of a {show(self.prune(t))}")
+                return a, ty
+            self.err(line, f"call of `{n}` not supported")
+        if len(segs) != 2:
+            self.err(line, f"call of `{'::'.join(segs)}` not supported")
+        o, n = segs
+        if o == "Into" and n == "into" and 0 in gens and len(args) == 1:
+            return self.ex_mcall(("mcall", args[0], "into", [], None, line), env, out, ind, gens[0][0])
+        oty = self.ty_of_name(o, line) if o != "ArrayMap" else ("ArrayMap",)
+        if o == "Self" and self.self_ty[0] == "ArrayMap":
+            oty = self.self_ty
+        if o == "Regex" and n == "new" and len(args) == 1:
+            a, t = self.ex(args[0], env, out, ind)
+            if self.prune(t) != ("str",):
+                self.err(line, "Regex::new of a non-string")
+            self.uses_regex = True
+            return f"(Regex.new {P(a)})", ("Result", ("regex",))
+        if oty[0] == "ArrayMap" and n in ("filled", "default"):
+            kt, vt = self.hole(), self.hole()
+            if 0 in gens:
+                kt, vt = gens[0][0], gens[0][1]
+            elif len(oty) == 3:
+                kt, vt = oty[1], oty[2]
+            elif exp is not None and self.prune(exp)[0] == "ArrayMap":
+                kt, vt = self.prune(exp)[1], self.prune(exp)[2]
+            if n == "filled":
+                if len(args) != 1:
+                    self.err(line, "ArrayMap::filled arity")
+                a, t = self.ex(args[0], env, out, ind, vt)
+                if not self.unify(t, vt):
+                    self.err(line, "ArrayMap::filled: value type")
+            else:
+                if args:
+                    self.err(line, "ArrayMap::default arity")
+                v = self.prune(vt)
+                if v != ("BitBoard",):
+                    self.err(line, f"ArrayMap::default() for values of type {show(v)} not supported (annotate the `let`)")
+                a = "BitBoard.ZERO"
+            self.nhole += 1
+            tag = f"⟪K{self.nhole}⟫"
+            self.counts.append((tag, kt, line))
+            return f"(Array.replicate {tag} {P(a)})", ("ArrayMap", kt, vt)
+        # associated function of a translated type
+        head = oty[0]
+        ats = [self.ex(a, env, out, ind) for a in args]
+        c = self.lookup(head, n, [t for _, t in ats], exp, line, "call")
+        if c.has_self:
+            self.err(line, "method called as an associated function not supported")
+        # literals etc. were typed without expectation: re-check
+        return self.apply(c, [a for a, _ in ats], env, out, ind)
+
+    def ex_mcall(self, e, env, out, ind, exp):
+        recv, name, args, gen, line = e[1], e[2], e[3], e[4], e[5]
+        if gen is not None and not (name == "parse" and len(gen) == 1):
+            self.err(line, "turbofish on a method not supported")
+        a, t = self.ex(recv, env, out, ind, exp if name == "map_err" else None)
+        t = self.prune(t)
+        h = t[0]
+
+        def noargs():
+            if args:
+                self.err(line, f"`.{name}` takes no arguments")
+
+        if name == "clone" and not args:
+            return a, t
+        if h == "char":
+            m = {"is_ascii_digit": "Char.isDigit", "is_ascii_uppercase": "Char.isUpper", "is_ascii_lowercase": "Char.isLower"}
+            if name in m:
+                noargs()
+                return f"({m[name]} {P(a)})", ("bool",)
+            m = {"to_ascii_uppercase": "Char.toUpper", "to_ascii_lowercase": "Char.toLower"}
+            if name in m:
+                noargs()
+                return f"({m[name]} {P(a)})", ("char",)
+            if name == "to_digit":
+                if len(args) != 1 or args[0][0] != "int" or int(args[0][1]) != 10:
+                    self.err(line, "to_digit: only radix 10")
+                return f"(char.to_digit10 {P(a)})", ("Option", ("u32",))
+        if h == "str":
+            if name == "starts_with" and len(args) == 1:
+                b, tb = self.ex(args[0], env, out, ind)
+                if self.prune(tb) != ("str",):
+                    self.err(line, "starts_with: only a string pattern")
+                return f"(str.starts_with {P(a)} {P(b)})", ("bool",)
+            if name == "chars":
+                noargs()
+                return a, ("iter", ("char",))
+            if name == "len":
+                noargs()
+                return f"(str.len {P(a)})", ("usize",)
+            if name == "as_bytes":
+                noargs()
+                if recv[0] != "str" or any(ord(c) > 127 for c in recv[1]):
+                    self.err(line, "as_bytes: only on an ASCII string literal")
+                return f"(str.ascii_bytes {P(a)})", ("slice", ("u8",))
+            if name == "parse":
+                noargs()
+                target = gen[0] if gen else (self.prune(exp) if exp is not None else None)
+                if target is not None and target[0] == "Result":
+                    target = self.prune(target[1])
+                if target != ("usize",):
+                    self.err(line, f"str::parse: only at type usize (found {show(target) if target else 'unknown'})")
+                return f"(str.parse_usize {P(a)})", ("Result", ("usize",))
+        if h in ("iter", "slice"):
+            el = t[1]
+            if name == "iter":
+                noargs()
+                return a, ("iter", el)
+            if h == "slice" and name == "len":
+                noargs()
+                return f"(slice.len {P(a)})", ("usize",)
+            if h == "iter" and name == "enumerate":
+                noargs()
+                return f"(iter.enumerate {P(a)})", ("iter", ("tuple", ("usize",), el))
+            if h == "iter":
+                if name == "rev":
+                    noargs()
+                    return f"(List.reverse {P(a)})", t
+                if name == "peekable":
+                    noargs()
+                    return a, t
+                if name == "peek":
+                    noargs()
+                    return f"(List.head? {P(a)})", ("Option", el)
+                if name == "nth" and len(args) == 1:
+                    b, tb = self.ex(args[0], env, out, ind, ("usize",))
+                    if self.root(recv) is not None:
+                        self.err(line, "`.nth` on a named iterator (it advances it) not supported")
+                    return f"(iter.nth {P(a)} {P(b)})", ("Option", el)
+                if name == "all" and len(args) == 1:
+                    f, rt = self.closure(args[0], env, [el], ind, ("bool",))
+                    return self.bind(env, out, ind, f"iter.all {P(a)} {f}"), ("bool",)
+                if name == "next":
+                    self.err(line, "`.next()` whose value is used is not supported (only as a statement)")
+        if h == "Option":
+            el = t[1]
+            if name in ("is_some", "is_none"):
+                noargs()
+                return f"(Option.{'isSome' if name == 'is_some' else 'isNone'} {P(a)})", ("bool",)
+            if name == "copied":
+                noargs()
+                return a, t
+            if name == "unwrap_or" and len(args) == 1:
+                b, tb = self.ex(args[0], env, out, ind, el)
+                if not self.unify(tb, el):
+                    self.err(line, "unwrap_or: type")
+                return f"(Option.getD {P(a)} {P(b)})", el
+            if name == "unwrap":
+                noargs()
+                return self.bind(env, out, ind, f"TRes.ofPanics {P(a)}"), el
+            if name == "ok_or" and len(args) == 1:
+                if args[0][0] != "unit":
+                    self.err(line, "ok_or: only `ok_or(())`")
+                return f"(TRes.okOr {P(a)})", ("Result", el)
+            if name == "map" and len(args) == 1:
+                f, rt = self.closure(args[0], env, [el], ind)
+                return self.bind(env, out, ind, f"Option.mapT {P(a)} {f}"), ("Option", rt)
+        if h == "Result":
+            if name == "map_err" and len(args) == 1:
+                c = args[0]
+                if c[0] != "closure" or c[2][0] != "unit" or len(c[1]) != 1 or c[1][0][0] != "pwild":
+                    self.err(line, "map_err: only `map_err(|_| ())`")
+                return a, t
+            if name == "unwrap" and t[1] == ("regex",):
+                noargs()
+                self.notes.append(f"`Regex::new(..).unwrap()` ({self.cur_fn}): the literal is assumed to compile (it is parsed by `FenRegex_parsed`)")
+                return self.bind(env, out, ind, a), t[1]
+        if h == "regex" and name == "captures" and len(args) == 1:
+            b, tb = self.ex(args[0], env, out, ind)
+            if self.prune(tb) != ("str",):
+                self.err(line, "captures: argument must be a &str")
+            return f"(rx {P(a)} {P(b)})", ("Option", ("captures",))
+        if h == "u8" and name == "checked_add" and len(args) == 1:
+            b, tb = self.ex(args[0], env, out, ind, ("u8",))
+            if self.prune(tb) != ("u8",):
+                self.err(line, "checked_add: operand type")
+            return f"(UInt8.checked_add {P(a)} {P(b)})", ("Option", ("u8",))
+        if name == "into" and not args:
+            target = self.prune(exp) if exp is not None else None
+            cands = [c for c in self.reg.get((h, "into"), []) if target is None or self.prune(c.ret) == target]
+            if len(cands) != 1:
+                self.err(line, f"`.into()` from {show(t)} to {show(target) if target else 'an unknown type'}: {len(cands)} candidates")
+            return self.apply(cands[0], [a], env, out, ind)
+        # method of a translated type
+        ats = [self.ex(x, env, out, ind) for x in args]
+        c = self.lookup(h, name, [tt for _, tt in ats], exp, line, "method call")
+        if not c.has_self:
+            self.err(line, f"`{name}` is not a method")
+        if c.mutparam is not None:
+            self.err(line, f"`&mut self` method `{name}` used as a value")
+        return self.apply(c, [a] + [x for x, _ in ats], env, out, ind)
+
+    # ------------------------------------------------------------------------------------------------------------------
+    # statements
+    # ------------------------------------------------------------------------------------------------------------------
+    def display(self, atom, t, f, env, out, ind, line):
+        t = self.prune(t)
+        if t[0] == "char":
+            out.append(f"{ind}let {f} := {f} ++ [{atom}]")
+        elif t[0] == "str":
+            out.append(f"{ind}let {f} := {f} ++ {P(atom)}")
+        elif t[0] in ("i32", "usize", "u8", "u32"):
+            out.append(f"{ind}let {f} := {f} ++ {t[0]}.display {P(atom)}")
+        elif t[0] == "notation":
+            c = [x for x in self.reg.get((t[1][0], "into_notation"), []) if x.kind == "tres" and x.mutparam == 1
+                 and len(x.params) == 2 and self.unify_probe(x.params[0][1], t[2])]
+            if len(c) != 1:
+                self.err(line, f"write!: {len(c)} translated `impl IntoNotation<{show(self.prune(t[2]))}> for {t[1][0]}`")
+            out.append(f"{ind}let {f} ← {c[0].lean} {P(atom)} {f}")
+        else:
+            c = [x for x in self.reg.get((t[0], "fmt"), []) if x.kind == "tres"]
+            if len(c) != 1:
+                self.err(line, f"write!: no translated `impl Display for {show(t)}`")
+            out.append(f"{ind}let {f} ← {c[0].lean} {P(atom)} {f}")
+
+    def stmt_write(self, e, env, out, ind):
+        f, fmt, args, line = e[1], e[2], e[3], e[4]
+        fa, ft = self.ex(f, env, out, ind)
+        if self.prune(ft) != ("fmt",) or self.root(f) is None or fa != mangle(self.root(f)):
+            self.err(line, "write!: the sink must be the `&mut Formatter` variable")
+        pieces = fmt.split("{}")
+        if any(("{" in p or "}" in p) for p in pieces):
+            self.err(line, f"write!: format string {fmt!r} — only `{{}}` placeholders are supported")
+        if len(pieces) - 1 != len(args):
+            self.err(line, "write!: number of arguments")
+        for i, p in enumerate(pieces):
+            if p:
+                out.append(f"{ind}let {fa} := {fa} ++ {chars_lit(p)}")
+            if i < len(args):
+                a, t = self.ex(args[i], env, out, ind)
+                self.display(a, t, fa, env, out, ind, line)
+
+    def place_update(self, place, env, out, ind, line, upd):
+        """`upd(old_atom, old_type)` -> new atom (may append to out); writes the new value back into the place"""
+        k = place[0]
+        if k == "path" and len(place[1]) == 1 and place[1][0] in env:
+            n = place[1][0]
+            new = upd(mangle(n), env[n])
+            out.append(f"{ind}let {mangle(n)} := {new}")
+            return
+        if k == "field" and not place[2].isdigit():
+            def upd2(old, t):
+                t = self.prune(t)
+                fields = self.structs.get(t[0])
+                if fields is None or place[2] not in dict(fields):
+                    self.err(line, f"field `.{place[2]}` of {show(t)} unknown")
+                new = upd(f"{P(old)}.f_{place[2]}", dict(fields)[place[2]])
+                return "{ " + old + " with f_" + place[2] + " := " + new + " }"
+            self.place_update(place[1], env, out, ind, line, upd2)
+            return
+        if k == "index":
+            def upd2(old, t):
+                t = self.prune(t)
+                if t[0] != "ArrayMap":
+                    self.err(line, f"assignment through an index of a {show(t)} not supported")
+                i, it = self.ex(place[2], env, out, ind, t[1])
+                if not self.unify(it, t[1]):
+                    self.err(line, "ArrayMap key type")
+                key = self.index_key(t[1], i)
+                self.cur_index = (old, key, t[2])
+                new = upd(None, t[2])
+                return self.bind(env, out, ind, f"TRes.ofPanics (ArrayMap.set {P(old)} {key} {P(new)})")
+            self.place_update(place[1], env, out, ind, line, upd2)
+            return
+        self.err(line, "assignment to this place not supported")
+
+    def stmt_assign(self, e, env, out, ind):
+        op, place, rhs = e[1], e[2], e[3]
+
+        def upd(old, t):
+            if old is None:                      # indexed place: read the element only when it is needed
+                if op != "=":
+                    arr, key, _ = self.cur_index
+                    old = self.bind(env, out, ind, f"TRes.ofPanics (ArrayMap.index {P(arr)} {key})")
+            if op == "=":
+                a, ta = self.ex(rhs, env, out, ind, t)
+                if not self.unify(ta, t):
+                    self.err(0, f"assignment: expected {show(self.prune(t))}, found {show(self.prune(ta))}")
+                return a
+            if op in ("+=", "-="):
+                a, ta = self.ex(rhs, env, out, ind, t)
+                tt = self.prune(t)
+                if not self.unify(ta, t) or tt[0] not in INT_LEAN:
+                    self.err(0, f"`{op}` on {show(tt)}")
+                fn = "checked_add" if op == "+=" else "checked_sub"
+                return self.bind(env, out, ind, f"TRes.ofPanics ({INT_LEAN[tt[0]]}.{fn} {P(old)} {P(a)})")
+            self.err(0, f"`{op}` not supported")
+        # a field of an indexed element needs the old element
+        if place[0] == "field" and place[1][0] == "index":
+            ixp = place[1]
+
+            def upd_el(old, t):
+                arr, key, _ = self.cur_index
+                el = self.bind(env, out, ind, f"TRes.ofPanics (ArrayMap.index {P(arr)} {key})")
+                tt = self.prune(t)
+                fields = self.structs.get(tt[0])
+                if fields is None or place[2] not in dict(fields):
+                    self.err(0, f"field `.{place[2]}` of {show(tt)} unknown")
+                new = upd(f"{el}.f_{place[2]}", dict(fields)[place[2]])
+                return "{ " + el + " with f_" + place[2] + " := " + new + " }"
+            self.place_update(ixp, env, out, ind, 0, upd_el)
+            return
+        self.place_update(place, env, out, ind, 0, upd)
+
+    def stmt(self, e, env, out, ind):
+        """an expression in statement position (value discarded)"""
+        k = e[0]
+        if k == "unit":
+            return
+        if k == "try" and e[1][0] == "write":
+            return self.stmt_write(e[1], env, out, ind)
+        if k == "write":
+            return self.stmt_write(e, env, out, ind)
+        if k == "assign":
+            return self.stmt_assign(e, env, out, ind)
+        if k == "debug_assert":
+            a, t = self.ex(e[1], env, out, ind, ("bool",))
+            out.append(f"{ind}TRes.assert {P(a)}")
+            return
+        if k == "mcall" and e[2] in self.mut_names:
+            recv, name, args, line = e[1], e[2], e[3], e[5]
+            rt = None
+            r = self.root(recv)
+            if r is not None and r in env and recv[0] == "path" and self.prune(env[r])[0] == "iter" and name == "next" and not args:
+                out.append(f"{ind}let {mangle(r)} := List.tail {mangle(r)}")
+                return
+
+            def upd(old, t):
+                if old is None:
+                    arr, key, _ = self.cur_index
+                    old = self.bind(env, out, ind, f"TRes.ofPanics (ArrayMap.index {P(arr)} {key})")
+                ats = [self.ex(x, env, out, ind) for x in args]
+                c = self.lookup(self.prune(t)[0], name, [tt for _, tt in ats], None, line, "method call")
+                if not c.has_self or c.mutparam != 0:
+                    self.err(line, f"`{name}`: expected a `&mut self` method")
+                term = " ".join([c.lean, P(old)] + [P(x) for x, _ in ats])
+                return self.bind(env, out, ind, f"TRes.ofPanics ({term})" if c.kind == "panics" else (term if c.kind == "tres" else f"pure ({term})"))
+            self.place_update(recv, env, out, ind, line, upd)
+            return
+        if k in ("if", "iflet", "match", "block", "for"):
+            vs = [v for v in self.assigned(e, set(), []) if v in env]
+            pat = tup([mangle(v) for v in vs]) if vs else "_"
+            sub = []
+            if k == "for":
+                self.emit_for(e, env, sub, ind + "    ", vs)
+            else:
+                self.ctrl(e, dict(env), sub, ind + "    ", Mode("state", vs))
+            out.append(f"{ind}let {pat} ← (do")
+            out.extend(sub)
+            out[-1] += ")"
+            return
+        if k in ("return", "break"):
+            self.err(0, f"`{k}` must be the last statement of its block")
+        a, t = self.ex(e, env, out, ind)       # evaluated for its effects (panics / errors), value discarded
+        if self.prune(t)[0] == "Result":
+            self.err(0, "a Result that is neither `?`-ed nor returned")
+
+    def emit_for(self, e, env, out, ind, vs):
+        pat, it, body, line = e[1], e[2], e[3], e[4]
+        a, t = self.ex(it, env, out, ind)
+        t = self.prune(t)
+        if t[0] not in ("iter", "slice"):
+            self.err(line, f"`for` over a {show(t)} not supported")
+        env2 = dict(env)
+        lines = []
+        ind2 = ind + "    "
+        for i, v in enumerate(vs):
+            lines.append(f"{ind2}let {mangle(v)} := {proj('st', i, len(vs))}")
+        if pat[0] == "pbind":
+            env2[pat[1]] = t[1]
+            x = mangle(pat[1])
+        elif pat[0] == "ptuple" and t[1][0] == "tuple" and len(pat[1]) == len(t[1]) - 1 and all(p[0] == "pbind" for p in pat[1]):
+            x = "x"
+            for i, p in enumerate(pat[1]):
+                env2[p[1]] = t[1][1 + i]
+                lines.append(f"{ind2}let {mangle(p[1])} := {proj('x', i, len(pat[1]))}")
+        else:
+            self.err(line, "`for` pattern not supported")
+        lines.extend(self.do_block(body, env2, ind2, Mode("loop", vs)))
+        out.append(f"{ind}for_loop {P(a)} {tup([mangle(v) for v in vs])} (fun st {x} => (do")
+        out.extend(lines)
+        out[-1] += "))"
+
+    # ------------------------------------------------------------------------------------------------------------------
+    # control flow in tail position of a do-block; `mode` says what the block must produce
+    # ------------------------------------------------------------------------------------------------------------------
+    def final(self, env, out, ind, mode):
+        if mode.kind == "state":
+            out.append(f"{ind}pure {tup([mangle(v) for v in mode.vars])}")
+        elif mode.kind == "loop":
+            out.append(f"{ind}pure (Flow.cont {tup([mangle(v) for v in mode.vars])})")
+        elif mode.kind == "fn" and self.cur_mut is not None:
+            out.append(f"{ind}pure {mangle(self.cur_mut)}")
+        else:
+            if not self.unify(mode.ty, ("unit",)):
+                self.err(0, f"a branch yields no value but {show(self.prune(mode.ty))} is expected")
+            out.append(f"{ind}pure ()")
+
+    def as_block(self, e):
+        return e if e[0] == "block" else ("block", [], e)
+
+    def is_err(self, e):
+        return e[0] == "call" and e[1][0] == "path" and e[1][1] == ["Err"] and len(e[2]) == 1 and e[2][0][0] == "unit"
+
+    def finish(self, tail, env, out, ind, mode):
+        if tail is None:
+            return self.final(env, out, ind, mode)
+        k = tail[0]
+        if k == "return":
+            if tail[1] is not None and self.is_err(tail[1]):
+                if self.cur_ret[0] != "Result":
+                    self.err(0, "`return Err(())` in a function that does not return Result")
+                out.append(f"{ind}TRes.err")
+                return
+            if mode.kind != "fn" or self.cur_mut is not None or tail[1] is None:
+                self.err(0, "`return` of a value is supported only on the function's own control path (not inside a loop or a nested statement)")
+            return self.finish(tail[1], env, out, ind, mode)
+        if k == "break":
+            if mode.kind != "loop":
+                self.err(0, "`break` is supported only as the last statement on a path of the loop body")
+            out.append(f"{ind}pure (Flow.brk {tup([mangle(v) for v in mode.vars])})")
+            return
+        valued = mode.kind == "value" or (mode.kind == "fn" and self.cur_mut is None)
+        if not valued:
+            if k == "call" and tail[1][0] == "path" and tail[1][1] == ["Ok"] and len(tail[2]) == 1 and tail[2][0][0] == "unit":
+                return self.final(env, out, ind, mode)
+            if k in ("if", "iflet", "match", "block"):
+                return self.ctrl(tail, env, out, ind, mode)
+            self.stmt(tail, env, out, ind)
+            return self.final(env, out, ind, mode)
+        if k in ("if", "iflet", "match", "block"):
+            return self.ctrl(tail, env, out, ind, mode)
+        if mode.kind == "fn" and self.cur_ret[0] == "Result":
+            if self.is_err(tail):
+                out.append(f"{ind}TRes.err")
+                return
+            if k == "call" and tail[1][0] == "path" and tail[1][1] == ["Ok"] and len(tail[2]) == 1:
+                a, t = self.ex(tail[2][0], env, out, ind, self.cur_ret[1])
+                if not self.unify(t, self.cur_ret[1]):
+                    self.err(0, f"`Ok(..)`: expected {show(self.cur_ret[1])}, found {show(self.prune(t))}")
+                out.append(f"{ind}pure {a}")
+                return
+            a, t = self.ex(tail, env, out, ind, self.cur_ret)
+            if not self.unify(t, self.cur_ret):
+                self.err(0, f"result: expected {show(self.cur_ret)}, found {show(self.prune(t))}")
+            out.append(f"{ind}{a}")
+            return
+        a, t = self.ex(tail, env, out, ind, mode.ty)
+        if self.prune(t)[0] == "Result":
+            self.err(0, "a Result value in this position is not supported")
+        if not self.unify(t, mode.ty):
+            self.err(0, f"value: expected {show(self.prune(mode.ty))}, found {show(self.prune(t))}")
+        out.append(f"{ind}pure {a}")
+
+    def returns_value(self, b):
+        """block whose last statement is `return <non-Err value>`"""
+        last = b[2] if b[2] is not None else (b[1][-1][1] if b[1] and b[1][-1][0] == "expr" else None)
+        return last is not None and last[0] == "return" and last[1] is not None and not self.is_err(last[1])
+
+    def do_block(self, b, env, ind, mode):
+        out = []
+        env = dict(env)
+        stmts, tail = list(b[1]), b[2]
+        if tail is None and stmts and stmts[-1][0] == "expr" and stmts[-1][1][0] in ("return", "break"):
+            tail = stmts.pop()[1]
+        for i, st in enumerate(stmts):
+            if st[0] == "let":
+                pat, ty, init, line = st[1], st[2], st[3], st[4]
+                self.cur_line = line
+                a, t = self.ex(init, env, out, ind, ty)
+                if ty is not None and not self.unify(t, ty):
+                    self.err(line, f"let: declared {show(ty)}, found {show(self.prune(t))}")
+                if self.prune(t)[0] == "Result":
+                    self.err(line, "binding a Result (use `?`)")
+                names = set()
+                self.pat_names(pat, names)
+                if mode.kind in ("state", "loop") and names & set(mode.vars):
+                    self.err(line, f"`let` shadows `{sorted(names & set(mode.vars))[0]}`, which an enclosing statement assigns")
+                if pat[0] == "pbind":
+                    env[pat[1]] = t
+                    if a != mangle(pat[1]):
+                        out.append(f"{ind}let {mangle(pat[1])} := {a}")
+                elif pat[0] == "ptuple" and all(p[0] == "pbind" for p in pat[1]) and self.prune(t)[0] == "tuple" \
+                        and len(self.prune(t)) - 1 == len(pat[1]):
+                    for j, p in enumerate(pat[1]):
+                        env[p[1]] = self.prune(t)[1 + j]
+                        out.append(f"{ind}let {mangle(p[1])} := {P(a)}{proj('', j, len(pat[1]))}")
+                elif pat[0] == "pwild":
+                    pass
+                else:
+                    self.err(line, "`let` pattern not supported")
+                continue
+            e, line = st[1], st[2]
+            self.cur_line = line
+            # `if c { …; return v; }` on the function's own control path: the rest of the block is the else branch
+            if e[0] == "if" and mode.kind == "fn" and self.cur_mut is None:
+                chain, x = [], e
+                while x is not None and x[0] == "if":
+                    chain.append(x)
+                    x = x[3]
+                if x is None and all(self.returns_value(c[2]) for c in chain):
+                    rest = ("block", stmts[i + 1:], tail)
+                    new = rest
+                    for c in reversed(chain):
+                        new = ("if", c[1], c[2], new, c[4])
+                    self.ctrl(new, env, out, ind, mode)
+                    return out
+            self.stmt(e, env, out, ind)
+        self.finish(tail, env, out, ind, mode)
+        return out
+
+    def branch(self, b, env, out, ind, mode, head):
+        out.append(f"{ind}{head} (do")
+        if b is None:
+            sub = []
+            self.final(env, sub, ind + "    ", mode)
+        elif b[0] == "block":
+            sub = self.do_block(b, env, ind + "    ", mode)
+        else:
+            sub = []
+            self.ctrl(b, dict(env), sub, ind + "    ", mode)
+        out.extend(sub)
+        out[-1] += ")"
+
+    def pat_cond(self, p, s, st, env, out, ind):
+        """Bool test `s matches p` for literal / range / constant patterns"""
+        if p[0] == "plit":
+            a, t = self.ex(p[1], env, out, ind, st)
+            if not self.unify(t, st):
+                self.err(0, "pattern type")
+            return f"({s} == {a})"
+        if p[0] == "prange":
+            lo, t1 = self.ex(p[1], env, out, ind, st)
+            hi, t2 = self.ex(p[2], env, out, ind, st)
+            if not (self.unify(t1, st) and self.unify(t2, st)) or self.prune(st)[0] not in ("char", "u8", "u32", "usize", "i32"):
+                self.err(0, "range pattern type")
+            return f"(decide ({lo} ≤ {s}) && decide ({s} {'≤' if p[3] else '<'} {hi}))"
+        if p[0] == "ppath":
+            a, t = self.ex(("path", p[1], {}, 0), env, out, ind)
+            if not self.unify(t, st):
+                self.err(0, "constant pattern type")
+            return f"({s} == {a})"
+        if p[0] == "por":
+            return "(" + " || ".join(self.pat_cond(q, s, st, env, out, ind) for q in p[1]) + ")"
+        self.err(0, "pattern not supported in a match on a char / string / integer")
+
+    def lean_pat(self, p, st, env):
+        """Lean pattern for enum / Option / tuple scrutinees; binds names into env"""
+        st = self.prune(st)
+        if p[0] == "pwild":
+            return "_"
+        if p[0] == "pbind":
+            env[p[1]] = st
+            return mangle(p[1])
+        if p[0] == "ppath":
+            segs = p[1]
+            if segs == ["None"] and st[0] == "Option":
+                return "Option.none"
+            if len(segs) == 2 and segs[0] in ENUMS and segs[1] in ENUMS[segs[0]] and st == (segs[0],):
+                return "." + ENUMS[segs[0]][segs[1]].split(".")[1]
+        if p[0] == "pctor" and p[1] == ["Some"] and st[0] == "Option" and len(p[2]) == 1:
+            return f"Option.some {P(self.lean_pat(p[2][0], st[1], env))}"
+        if p[0] == "ptuple" and st[0] == "tuple" and len(p[1]) == len(st) - 1:
+            return "(" + ", ".join(self.lean_pat(q, t, env) for q, t in zip(p[1], st[1:])) + ")"
+        self.err(0, f"pattern not supported on a {show(st)}")
+
+    def ctrl(self, e, env, out, ind, mode):
+        k = e[0]
+        if k == "block":
+            out.extend(self.do_block(e, env, ind, mode))
+            return
+        if k == "if":
+            c, t = self.ex(e[1], env, out, ind, ("bool",))
+            if self.prune(t) != ("bool",):
+                self.err(e[4], "condition is not a bool")
+            self.branch(e[2], env, out, ind, mode, f"if {c} then")
+            self.branch(e[3], env, out, ind, mode, "else")
+            return
+        if k == "iflet":
+            s, st = self.ex(e[2], env, out, ind)
+            st = self.prune(st)
+            if st[0] != "Option" or e[1][0] != "pctor" or e[1][1] != ["Some"]:
+                self.err(e[5], "`if let`: only `Some(x)` on an Option")
+            env2 = dict(env)
+            lp = self.lean_pat(e[1], st, env2)
+            out.append(f"{ind}match {s} with")
+            self.branch(e[3], env2, out, ind, mode, f"| {lp} =>")
+            self.branch(e[4], env, out, ind, mode, "| Option.none =>")
+            return
+        if k == "match":
+            s, st = self.ex(e[1], env, out, ind)
+            st = self.prune(st)
+            arms = e[2]
+            if st[0] in ("char", "str", "u8", "u32", "usize", "i32"):
+                if not re.fullmatch(r"[\w.']+", s):
+                    s = self.bind(env, out, ind, s, pure=True)
+                n_if = 0
+                closed = False
+                for pat, body in arms:
+                    if closed:
+                        self.err(e[3], "match arm after a catch-all arm")
+                    if pat[0] in ("pwild", "pbind"):
+                        env2 = dict(env)
+                        pre = []
+                        if pat[0] == "pbind":
+                            env2[pat[1]] = st
+                            if mode.kind in ("state", "loop") and pat[1] in mode.vars:
+                                self.err(e[3], "arm binder shadows an assigned variable")
+                            if mangle(pat[1]) != s:
+                                pre.append(f"let {mangle(pat[1])} := {s}")
+                        if n_if == 0:
+                            out.extend(ind + x for x in pre)
+                            out.extend(self.do_block(self.as_block(body), env2, ind, mode))
+                        else:
+                            out.append(f"{ind}else (do")
+                            out.extend(ind + "    " + x for x in pre)
+                            out.extend(self.do_block(self.as_block(body), env2, ind + "    ", mode))
+                            out[-1] += ")"
+                        closed = True
+                    else:
+                        pre = []
+                        c = self.pat_cond(pat, s, st, env, pre, ind)
+                        if pre:
+                            self.err(e[3], "pattern with effects")
+                        head = f"if {c} then" if n_if == 0 else f"else (if {c} then"
+                        self.branch(self.as_block(body), env, out, ind, mode, head)
+                        n_if += 1
+                if not closed:
+                    self.err(e[3], "match on a char / string / integer without a catch-all arm")
+                out[-1] += ")" * max(0, n_if - 1)
+                return
+            if st[0] in ("Option", "tuple") or st[0] in ENUMS:
+                out.append(f"{ind}match {s} with")
+                seen_all = False
+                for pat, body in arms:
+                    env2 = dict(env)
+                    lp = self.lean_pat(pat, st, env2)
+                    self.branch(self.as_block(body), env2, out, ind, mode, f"| {lp} =>")
+                return
+            self.err(e[3], f"match on a {show(st)} not supported")
+        self.err(0, f"`{k}` not supported here")
+
+    # ------------------------------------------------------------------------------------------------------------------
+    # items
+    # ------------------------------------------------------------------------------------------------------------------
+    def locate(self, cont):
+        toks = self.load(cont["file"])
+        lo, hi = 0, len(toks)
+        for header in cont["path"]:
+            lo, hi = find_container(toks, lo, hi, header, cont["file"])
+        return toks, lo, hi
+
+    def signature(self, raw, self_ty, fname):
+        p = BodyParser(raw.sig, self_ty, fname)
+        p.eat("(")
+        params = []
+        mut = None
+        while p.peek() != ")":
+            if p.peek() in ("&", "self", "mut"):
+                save = p.i
+                isref = ismut = False
+                if p.peek() == "&":
+                    p.eat()
+                    isref = True
+                    if p.kind() == "life":
+                        p.eat()
+                if p.peek() == "mut":
+                    p.eat()
+                    ismut = True
+                if p.peek() == "self":
+                    p.eat()
+                    if self_ty is None:
+                        fail(f"{fname}: fn {raw.name}: `self` outside an impl")
+                    params.append(("self", self_ty))
+                    if isref and ismut:
+                        mut = "self"
+                    if p.peek() == ",":
+                        p.eat()
+                    continue
+                p.i = save
+                if p.peek() == "mut":
+                    p.eat()
+            name = p.eat().s
+            p.eat(":")
+            refmut = p.peek() == "&" and p.t[p.i + 1].s == "mut"
+            ty = p.ty()
+            params.append((name, ty))
+            if refmut:
+                if mut is not None:
+                    fail(f"{fname}: fn {raw.name}: more than one `&mut` parameter")
+                mut = name
+            if p.peek() == ",":
+                p.eat()
+        p.eat(")")
+        ret = ("unit",)
+        if p.peek() == "->":
+            p.eat()
+            ret = p.ty()
+        if p.i != len(p.t):
+            fail(f"{fname}:{raw.line}: fn {raw.name}: `{p.peek()}` in the signature not supported")
+        return params, ret, mut
+
+    def collect(self):
+        self.pending = []
+        for rel, pat, what in TEXT_CHECKS:
+            text = re.sub(r"//[^\n]*", "", self.src.get(rel) or (self.load(rel) and self.src[rel]))
+            if not re.search(pat, text):
+                fail(f"{rel}: expected declaration not found: {what}")
+        for rel, name in STRUCT_DECLS:
+            toks = self.load(rel)
+            derives, fields = R2.find_struct(toks, name, rel)
+            fl = []
+            for fld in fields:
+                tp = TyParser(list(fld[1]), None, rel)
+                fl.append((fld[0], tp.ty()))
+            self.structs[name] = fl
+            self.items.append(("struct", rel, name, fl, derives))
+        self.structs.setdefault("State", [("board", ("Board",)), ("turn_to_move", ("Color",)),
+                                          ("castle_rights", ("ArrayMap", ("Color",), ("CastleRights",))),
+                                          ("en_passant_target", ("Option", ("Square",))), ("clock", ("Clock",))])
+        text = re.sub(r"//[^\n]*", "", self.src[STATE])
+        if not re.search(r"pub struct State \{\s*board: Board,\s*turn_to_move: Color,\s*castle_rights: ArrayMap<Color, CastleRights>,\s*en_passant_target: Option<Square>,\s*clock: Clock,\s*\}", text):
+            fail(f"{STATE}: `struct State` differs from the translated declaration")
+        for cont in CONTAINERS:
+            toks, lo, hi = self.locate(cont)
+            self_ty = parse_ty_str(cont["self"]) if cont.get("self") else None
+            fns, consts = scan_items_tolerant(toks, lo, hi, cont["file"])
+            names = [f.name for f in fns]
+            for n in cont["fns"]:
+                if names.count(n) != 1:
+                    fail(f"{cont['file']}: `{' / '.join(' '.join(h) for h in cont['path'])}`: expected exactly one `fn {n}`")
+            if cont.get("complete"):
+                for n in names:
+                    if n not in cont["fns"] and n not in cont.get("skip", {}):
+                        fail(f"{cont['file']}: `{' '.join(cont['path'][-1])}`: new fn `{n}` is not in the translation table")
+            if cont.get("consts"):
+                for name, etoks, line, attrs in consts:
+                    if cont.get("only_consts") and name not in cont["only_consts"]:
+                        continue
+                    p = BodyParser(etoks, self_ty, cont["file"])
+                    ty = p.ty()
+                    p.eat("=")
+                    lit = p.expr()
+                    if p.i != len(p.t) or lit[0] not in ("char", "str"):
+                        fail(f"{cont['file']}:{line}: const {name}: only char / string literals")
+                    lean = f"{cont['consts']}.{name}"
+                    self.consts[(cont["consts"], name)] = (lean, ("char",) if lit[0] == "char" else ("str",))
+                    if cont["consts"] == "fen":
+                        self.consts[("fen", name)] = (lean, ("str",))
+                    val = char_lit(lit[1]) if lit[0] == "char" else chars_lit(lit[1])
+                    self.items.append(("const", cont["file"], lean, "Char" if lit[0] == "char" else "List Char", val, line))
+                for n in cont.get("only_consts", []):
+                    if n not in [c[0] for c in consts]:
+                        fail(f"{cont['file']}: const {n} not found")
+            by = {f.name: f for f in fns}
+            for n, lean in cont["fns"].items():
+                raw = by[n]
+                if raw.generic:
+                    fail(f"{cont['file']}: fn {n}: generic functions are not supported")
+                if any("cfg" in a for a in raw.attrs):
+                    fail(f"{cont['file']}: fn {n}: cfg-gated")
+                params, ret, mut = self.signature(raw, self_ty, cont["file"])
+                if ret[0] == "fmtresult" and mut is None:
+                    fail(f"{cont['file']}: fn {n}: fmt::Result without a `&mut Formatter`")
+                mp = [i for i, p in enumerate(params) if p[0] == mut][0] if mut else None
+                eff_ret = params[mp][1] if mut else ret
+                if mut and ret not in (("unit",), ("fmtresult",)):
+                    fail(f"{cont['file']}: fn {n}: `&mut` parameter together with a return value")
+                has_self = bool(params) and params[0][0] == "self"
+                ent = Entry(lean, params, eff_ret, "tres", mp, has_self,
+                            rust=" / ".join(" ".join(h) for h in cont["path"]) + " :: " + n)
+                head = self_ty[0] if self_ty else None
+                self.reg.setdefault((head, n), []).append(ent)
+                if has_self and mp == 0:
+                    self.mut_names.add(n)
+                self.pending.append((cont, raw, ent, self_ty, ret, mut))
+        # every fn of notation.rs is accounted for
+        toks = self.load(NOTATION)
+        found = {}
+        for i, t in enumerate(toks):
+            if t.s == "fn" and toks[i + 1].k == "id":
+                found[toks[i + 1].s] = found.get(toks[i + 1].s, 0) + 1
+        expect = {"into_notation": 6, "try_from_notation": 4, "try_parse": 3, "deref": 1, "fmt": 1, "from": 1,
+                  "test_default_fen": 1, "test_round_trip": 1}
+        if found != expect:
+            fail(f"{NOTATION}: the set of functions changed: found {sorted(found.items())}, translated/skipped set is {sorted(expect.items())}")
+
+    def emit_fn(self, cont, raw, ent, self_ty, ret, mut):
+        self.cur_file, self.cur_fn, self.cur_mod = cont["file"], raw.name, cont.get("mod")
+        self.self_ty, self.cur_ret, self.cur_mut = self_ty, ret, mut
+        self.uses_regex = False
+        self.counts = []
+        self.ntmp = 0
+        p = BodyParser(raw.body, self_ty, cont["file"])
+        body = p.block()
+        env = {n: t for n, t in ent.params}
+        mode = Mode("fn", ty=ret if ret[0] != "Result" else ret[1])
+        lines = self.do_block(body, env, "  ", mode)
+        text = "\n".join(lines)
+        for tag, kt, line in self.counts:
+            k = self.prune(kt)
+            if k[0] == "?" or k[0] not in self.e3.key_count:
+                self.err(line, f"ArrayMap::filled/default: key type {show(k)} undetermined or without `impl ArrayKey` (COUNT)")
+            text = text.replace(tag, str(self.e3.key_count[k[0]]))
+        ent.seam = self.uses_regex
+        ps = "".join(f" ({mangle(n)} : {lean_ty(self.prune(t))})" for n, t in ent.params)
+        if ent.seam:
+            ps = " (rx : RegexCaptures)" + ps
+        rt = lean_ty(self.prune(ent.ret if mut else (ret[1] if ret[0] == "Result" else ret)), True)
+        head = f"/-- `{ent.rust}` ({cont['file']}:{raw.line}) -/\ndef {ent.lean}{ps} : TRes {rt} := do"
+        return head + "\n" + text
+
+    def run(self):
+        self.collect()
+        fn_texts = []
+        for item in self.pending:
+            fn_texts.append(self.emit_fn(*item))
+        files = sorted({c["file"] for c in CONTAINERS})
+        out = ["-- GENERATED by tools/rs2lean_text.py from " + ", ".join(files) + "; do not edit.",
+               "import Wee.Gen.GenMoves",
+               "/-!",
+               "# Lean definitions translated from the Rust source text, stage 3d (text notations: FEN writer / reader, SAN, MoveQuery)",
+               "",
+               "Every `def`/`structure` below the prelude is produced from the text of one Rust item; the prelude is the fixed, trusted",
+               "vocabulary.  `Wee/Proofs/TextFnsBridge.lean` proves these functions equal to the hand-written model (`Wee/Model/Fen.lean`,",
+               "`Wee/Model/San.lean`).  Functions of stages 1-3a (`MoveFns.lean`, `CoreFns.lean`, `GenMoves.lean`) are used by name.",
+               "-/",
+               "set_option linter.unusedVariables false",
+               "namespace Wee.GenFns",
+               "open Wee",
+               PRELUDE.strip("\n"),
+               "",
+               "/-! ## Translated struct declarations, constants -/",
+               ""]
+        for it in self.items:
+            if it[0] == "struct":
+                _, rel, name, fl, derives = it
+                out.append(f"/-- `struct {name}` ({rel}) -/")
+                out.append(f"structure {name} where")
+                for f, t in fl:
+                    out.append(f"  f_{f} : {lean_ty(t)}")
+                out.append("deriving DecidableEq, Repr")
+                out.append("")
+            else:
+                _, rel, lean, ty, val, line = it
+                out.append(f"/-- `const {lean.split('.')[-1]}` ({rel}:{line}) -/")
+                out.append(f"def {lean} : {ty} := {val}")
+                out.append("")
+        out.append("/-! ## Translated functions -/")
+        out.append("")
+        for t in fn_texts:
+            out.append(t)
+            out.append("")
+        out.append("/-! ## Side conditions checked by the translator")
+        for n in sorted(set(self.notes)):
+            out.append(f"* {n}")
+        for k, v in sorted(NOTATION_SKIP.items()):
+            out.append(f"* notation.rs `{k}` not translated: {v}")
+        out.append("-/")
+        out.append("end Wee.GenFns")
+        return "\n".join(out) + "\n"
+
+
+PRELUDE = r'''
+/-! ## Prelude: the trusted vocabulary of stage 3d -/
+
+/-- outcome of a translated function: a value, `Err(())`, or a panic (debug profile: overflow checks on) -/
+inductive TRes (α : Type) where
+  | ok (a : α)
+  | err
+  | panic
+deriving Repr, DecidableEq
+
+instance : Monad TRes where
+  pure := TRes.ok
+  bind r f := match r with
+    | .ok a => f a
+    | .err => .err
+    | .panic => .panic
+
+/-- a stage 1-3a function (`Panics α = Option α`, `none` = panic) -/
+def TRes.ofPanics {α : Type} : Option α → TRes α
+  | some a => .ok a
+  | none => .panic
+/-- `.ok_or(())?` / a `Result<_, E>` of stages 1-3a (`Option`, payload dropped) followed by `.map_err(|_| ())` -/
+def TRes.okOr {α : Type} : Option α → TRes α
+  | some a => .ok a
+  | none => .err
+/-- `debug_assert!` -/
+def TRes.assert (c : Bool) : TRes Unit := if c then .ok () else .panic
+
+/-- what one pass of a loop body says: go on / `break` (with the values of the variables the loop assigns) -/
+inductive Flow (σ : Type) where
+  | cont (s : σ)
+  | brk (s : σ)
+
+/-- `for x in items { body }` with `break`; `?` / `return Err(())` / panics leave through `TRes` -/
+def for_loop {α σ : Type} : List α → σ → (σ → α → TRes (Flow σ)) → TRes σ
+  | [], s, _ => .ok s
+  | x :: xs, s, f =>
+    match f s x with
+    | .ok (.cont s') => for_loop xs s' f
+    | .ok (.brk s') => .ok s'
+    | .err => .err
+    | .panic => .panic
+
+/-- `Iterator::all` (stops at the first `false`) -/
+def iter.all {α : Type} : List α → (α → TRes Bool) → TRes Bool
+  | [], _ => .ok true
+  | x :: xs, p =>
+    match p x with
+    | .ok true => iter.all xs p
+    | .ok false => .ok false
+    | .err => .err
+    | .panic => .panic
+/-- `Option::map` with a closure that may panic -/
+def Option.mapT {α β : Type} : Option α → (α → TRes β) → TRes (Option β)
+  | Option.none, _ => .ok Option.none
+  | Option.some a, f =>
+    match f a with
+    | .ok b => .ok (Option.some b)
+    | .err => .err
+    | .panic => .panic
+/-- `iter.nth(n)` on a fresh iterator -/
+def iter.nth {α : Type} (l : List α) (n : UInt64) : Option α := l[n.toNat]?
+/-- `slice[i]` -/
+def slice.index {α : Type} (l : List α) (i : UInt64) : Panics α := l[i.toNat]?
+/-- `slice.len()` -/
+def slice.len {α : Type} (l : List α) : UInt64 := l.length.toUInt64
+/-- `iter.enumerate()` (`usize` indices from 0) -/
+def iter.enumerate {α : Type} (l : List α) : List (UInt64 × α) := ((List.range l.length).map Nat.toUInt64).zip l
+
+/-! strings: `&str` / `String` / `Formatter` sink are `List Char`; `chars()` is the list itself, `peekable()` the list
+of the items not yet consumed (`peek` = `head?`, `next` = `tail`) -/
+def str.starts_with (s p : List Char) : Bool := p.isPrefixOf s
+/-- `str::len`: the UTF-8 byte length -/
+def str.len (s : List Char) : UInt64 := (String.ofList s).utf8ByteSize.toUInt64
+/-- `"…".as_bytes()` of an ASCII literal (the translator checks that the literal is ASCII) -/
+def str.ascii_bytes (s : List Char) : List UInt8 := s.map (fun c => c.toNat.toUInt8)
+/-- `c as u8` (truncates) -/
+def char.as_u8 (c : Char) : UInt8 := c.toNat.toUInt8
+/-- `b as char` -/
+def u8.as_char (b : UInt8) : Char := Char.ofNat b.toNat
+/-- `c.to_digit(10)`: ASCII digits only -/
+def char.to_digit10 (c : Char) : Option UInt32 := if c.isDigit then Option.some (c.toNat - 48).toUInt32 else Option.none
+/-- `Display` of the integer types: decimal, `-` for negative values -/
+def i32.display (x : Int32) : List Char := (toString x.toInt).toList
+def usize.display (x : UInt64) : List Char := (toString x.toNat).toList
+def u8.display (x : UInt8) : List Char := (toString x.toNat).toList
+def u32.display (x : UInt32) : List Char := (toString x.toNat).toList
+/-- `str::parse::<usize>()` (`usize::from_str`): an optional leading `+`, then at least one ASCII digit, nothing else;
+a value `≥ 2^64` is `Err` (PosOverflow) -/
+def str.parse_usize (s : List Char) : TRes UInt64 :=
+  let digits := match s with
+    | '+' :: r => r
+    | _ => s
+  if digits.isEmpty then .err else
+  match digits.foldl (fun (acc : Option Nat) c => match acc with
+      | Option.none => Option.none
+      | Option.some v =>
+        if c.isDigit then
+          let v' := v * 10 + (c.toNat - 48)
+          if v' < 2 ^ 64 then Option.some v' else Option.none
+        else Option.none) (Option.some 0) with
+  | Option.some v => .ok v.toUInt64
+  | Option.none => .err
+
+/-! the `regex` crate is a SEAM: `Regex::new(p)` is the pattern text, `re.captures(text)` is the parameter `rx` of the
+translated function (pattern → text → capture groups); `&groups[i]` panics when group `i` did not participate.
+The semantics of the pattern is formalised in `Wee/Spec/Regex.lean` + `Wee/Props/FenRegex.lean`. -/
+abbrev RegexGroups := Nat → Option (List Char)
+abbrev RegexCaptures := List Char → List Char → Option RegexGroups
+def Captures.index (g : RegexGroups) (i : Nat) : Panics (List Char) := g i
+def Regex.new (p : List Char) : TRes (List Char) := .ok p
+'''
+
+
+def main():
+    ap = argparse.ArgumentParser()
+    ap.add_argument("--repo", default=os.environ.get("WEE_REPO", "/repo"))
+    ap.add_argument("--out", default=DEFAULT_OUT)
+    ap.add_argument("--check", action="store_true", help="do not write; exit 1 if the file would change")
+    a = ap.parse_args()
+    try:
+        text = Text(a.repo).run()
+    except TieBroken as ex:
+        msg = str(ex)
+        print(f"TIE-BROKEN rs2lean_text: {msg}")
+        sys.exit(2)
+    old = None
+    if os.path.exists(a.out):
+        with open(a.out) as f:
+            old = f.read()
+    changed = old != text
+    if a.check:
+        print('{"changed": %s}' % ("true" if changed else "false"))
+        sys.exit(1 if changed else 0)
+    if changed:
+        os.makedirs(os.path.dirname(a.out), exist_ok=True)
+        with open(a.out, "w") as f:
+            f.write(text)
+    print('{"changed": [%s]}' % ('"TextFns.lean"' if changed else ""))
+
+
+if __name__ == "__main__":
+    main()
